@@ -406,6 +406,24 @@ func runC04(r *core.Run) {
 			return core.Outcome{Class: fmt.Sprint("blocks=", c.N < 0), Nontrivial: c.N >= 2 || c.N < -1, Evals: 4}
 		})
 
+	firstBytes(r, "bed", func(prefix string) ([]byte, []obsItem, bool, string) {
+		if hasDelim(prefix) || prefix[0] == '#' {
+			return nil, nil, false, ""
+		}
+		first, second := defaultBed(4), defaultBed(4)
+		first.Chrom, second.Chrom = core.S(prefix+"c"), "second"
+		var data []byte
+		var want []obsItem
+		for _, rc := range []bedRec{first, second} {
+			d, fail := writeBedChecked(rc)
+			if fail != "" {
+				return nil, nil, true, fail
+			}
+			data = append(data, d...)
+			want = append(want, obsItem{Rec: renderBED(rc.expectBack())})
+		}
+		return data, want, true, ""
+	})
 	interleavedReadersFor(r, []string{"bed"})
 	consumerMutatesRecords(r, []string{"bed"})
 	bigFiles(r, "bed", []int{3, 4, 5, 6, 7, 8, 9, 10, 11, 12})
